@@ -199,7 +199,9 @@ func (d *c20CompositeDriver) Running() map[string][2]string {
 
 func relatedFactory(w *vw.World, cfg *vw.CtlConfig) *dynamicinformer.SharedInformerFactory {
 	if cfg.RealRelatedInformers {
-		return dynamicinformer.NewSharedInformerFactory(w.DynClient, 10*time.Minute)
+		f := dynamicinformer.NewSharedInformerFactory(w.DynClient, 10*time.Minute)
+		w.RelatedRefs = f.VerifRefCounts
+		return f
 	}
 	return &dynamicinformer.SharedInformerFactory{}
 }
